@@ -662,7 +662,14 @@ def _post_shutdown(obs):
     """After the barrier: let anything still alive run, then record what threads remain."""
     w = obs.world
     with watchdog.polling():
-        obs.post_quiescent = watchdog.wait_quiescent(5.0, director=w.director, need=3)
+        end = time.monotonic() + 10.0
+        while True:
+            obs.post_quiescent = watchdog.wait_quiescent(5.0, director=w.director, need=3)
+            # (a thread the harness still holds - parked at a gate that the starved gate thread has not opened yet, or at a pause
+            # window - is not "everything has run": wait for the harness to let go)
+            if not (w.director.parked_keys() or watchdog.PAUSED[0]) or time.monotonic() > end:
+                break
+            time.sleep(0.002)
     w.log.add('post.check')
     # the worker threads of THIS manager's executors (an earlier case of the same worker process that timed out may have left
     # threads with the same names behind)
